@@ -26,8 +26,8 @@ ANCHORS = [
     "stereomolgraph.graphs.scrg:StereoCondensedReactionGraph.relabel_atoms",
 ]
 REQUIRED_ANCHORS = ANCHORS
-REQUIRED = ["relabels", "kind:partial", "kind:total", "kind:cycle", "kind:identity", "kind:empty", "with_isolated", "with_changes", "mode:copy", "mode:inplace", "followup_ops", "inverse_checked", "scale_cases"]
-KINDS = ("total", "partial", "cycle", "identity", "empty", "partial", "total", "swap")
+REQUIRED = ["relabels", "kind:partial", "kind:total", "kind:cycle", "kind:identity", "kind:empty", "kind:foreign", "with_isolated", "with_changes", "mode:copy", "mode:inplace", "followup_ops", "inverse_checked", "scale_cases"]
+KINDS = ("total", "partial", "cycle", "identity", "empty", "partial", "total", "swap", "foreign")
 
 
 def make_mapping(rng, ids, kind):
@@ -41,6 +41,17 @@ def make_mapping(rng, ids, kind):
     if kind == "cycle":
         sub = rng.sample(ids, rng.randint(1, len(ids)))
         return {a: b for a, b in zip(sub, sub[1:] + sub[:1])}
+    if kind == "foreign":
+        # one renumbering table applied to a graph that holds only some (or none) of its keys: the other entries are
+        # irrelevant; the table is made exactly as long as the graph has atoms
+        sub = rng.sample(ids, rng.randint(0, max(0, len(ids) - 1)))
+        pool = [x for x in range(3000, 9000) if x not in ids]
+        tgt = rng.sample(pool, len(ids))
+        m = dict(zip(sub, tgt))
+        extra = [x for x in range(-900, -300) if x not in ids]
+        for k_, t_ in zip(rng.sample(extra, len(ids) - len(sub)), tgt[len(sub):]):
+            m[k_] = t_
+        return m
     if kind == "swap":
         if len(ids) < 2:
             return {}
